@@ -123,6 +123,23 @@ class Esc:
         return not any(isinstance(x, (ast.Return, ast.Continue, ast.Break)) for s in body for x in ast.walk(s))
 
     def sink_of_handler(self, f: FuncInfo, h: ast.ExceptHandler) -> str:
+        sink = self._sink_of_handler(f, h)
+        if sink in ('swallowed', 'logged'):
+            # what the handler does may sit in a private helper (``next_state = self._excepted_outcome(*sys.exc_info()[1:])``): the same handler in the
+            # function's view (helpers inlined) decides
+            try:
+                v = self.prog.view(f)
+            except Exception:
+                v = f
+            if v is not f:
+                same = [x for x in ast.walk(v.node) if isinstance(x, ast.ExceptHandler) and (x.lineno, x.col_offset) == (h.lineno, h.col_offset) and norm(x.type) == norm(h.type)]
+                if len(same) == 1:
+                    seen = self._sink_of_handler(v, same[0])
+                    if seen not in ('swallowed', 'logged'):
+                        return seen
+        return sink
+
+    def _sink_of_handler(self, f: FuncInfo, h: ast.ExceptHandler) -> str:
         names = []
         # a bound method cached in a local (``log_error = _LOGGER.error``) is that method
         cached = {t.id: a.value.attr for a in ast.walk(f.node) if isinstance(a, ast.Assign) and len(a.targets) == 1 and isinstance(a.value, ast.Attribute) for t in a.targets if isinstance(t, ast.Name)}
